@@ -155,3 +155,15 @@ tiers! {
     calls("konst::string::split_at"),
     bounds("all valid UTF-8 strings <=5 bytes, every in-range index inside a character", "<=7 bytes"),
     panics_in("basic_panic", "non_char_boundary_panic") }
+
+/// Lemma for the trusted base (DESIGN 2.2): the `valid_utf8` predicate that every `sym_str!` uses
+/// accepts exactly the byte strings `core::str::from_utf8` accepts.
+fn lemma_utf8_predicate<const CAP: usize>() {
+    sym_bytes!(b, CAP);
+    assert!(valid_utf8(b) == core::str::from_utf8(b).is_ok());
+    must_reach!(b.len() == CAP && valid_utf8(b) && b[0] >= 0xF0, "valid string starting with a 4-byte char");
+    must_reach!(b.len() == CAP && !valid_utf8(b) && b[0] == 0xED, "rejected surrogate / truncated 3-byte sequence");
+}
+tiers! { lemma_utf8_predicate: unwind(8, 9), lemma_utf8_predicate::<5>(), lemma_utf8_predicate::<6>(),
+    calls("harness::util::valid_utf8 (trusted base) vs core::str::from_utf8"),
+    bounds("every byte string <=5 bytes", "<=6 bytes") }
